@@ -2,7 +2,8 @@
 
 Model-based: a generated history (creation from shape / data, cell / slice / fancy assignment and
 retrieval through __setitem__/__getitem__ and set_data/get_data, slicing to new Vectors, slice / fancy
-assignment of Vector values (fresh, sliced now, or held from earlier and possibly stale), field
+assignment of Vector values (fresh, sliced now, or held from earlier and possibly stale), from_data / .data
+from a list object the harness keeps, mutates and reuses, cells of mixed dtypes (read side by value), field
 arithmetic, flatten / set_flattened, add_fields / remove_fields, copy, metadata writes, a second and
 third independently created Vector) is applied to real `Vector` objects and to the pure-Python
 reference model in vq/refs/c11_vector_model.py.  After EVERY step every live Vector is read back
@@ -60,9 +61,38 @@ def rows_for(seed, nrows, k):
     return [[val(seed, r, c) for c in range(k)] for r in range(nrows)]
 
 
-def as_array(rows, k):
-    """fresh float64 (nrows, k) array (zero rows keep their k columns)"""
-    return np.array(rows, dtype=np.float64).reshape(len(rows), k)
+def as_array(rows, k, dt="float64"):
+    """fresh (nrows, k) array of dtype dt (zero rows keep their k columns)"""
+    return np.array(rows, dtype=np.dtype(dt)).reshape(len(rows), k)
+
+
+DTS = ["int64", "float64", "int32", "float32"]
+
+
+def dtype_for(code, t, enabled):
+    """dtype of the t-th array of a step: codes 0..3 (and every code when the history does not use mixed
+    dtypes) mean float64 throughout, codes 4..7 cycle through DTS starting at DTS[code % 4]"""
+    if not enabled or code < 4:
+        return "float64"
+    return DTS[(code + t) % 4]
+
+
+def rows_dt(seed, nrows, k, dt):
+    """cell content for dtype dt: half-integers in [-4, 4] (exact in float32/float64); integer dtypes get the
+    integer-valued 2*val in [-8, 8] (as Python floats: everything is compared by value)"""
+    if dt.startswith("int"):
+        return [[val(seed, r, c) * 2 for c in range(k)] for r in range(nrows)]
+    return rows_for(seed, nrows, k)
+
+
+def make_elem(rows, k, dt, as_list):
+    """one element of a from_data / .data list: ndarray of dtype dt, or a nested Python list (ints for the
+    integer dtypes - the docstring's from_data example; zero rows and float32 have no list spelling)"""
+    if as_list and rows and dt != "float32":
+        if dt.startswith("int"):
+            return [[int(x) for x in r] for r in rows]
+        return copy.deepcopy(rows)
+    return as_array(rows, k, dt)
 
 
 def bad_array(kind, seed, nrows, k):
@@ -103,6 +133,7 @@ EXPR = st.one_of(
 )
 EXPRS3 = st.lists(EXPR, min_size=3, max_size=3)
 BAD = st.one_of(st.none(), st.none(), st.none(), st.none(), st.sampled_from(BAD_KINDS))
+DT = st.integers(0, 7)
 
 
 @st.composite
@@ -123,6 +154,8 @@ def create_spec(draw):
         spec["rows"] = draw(st.lists(nrows, min_size=1, max_size=5))
         spec["seed"] = draw(seeds)
         spec["form"] = draw(st.sampled_from(["arrays", "lists", "mixed"]))
+        spec["dt"] = draw(st.integers(0, 7))
+        spec["keep"] = draw(st.booleans())
     return spec
 
 
@@ -136,25 +169,40 @@ def _av():
         shift=idx3, delta=st.sampled_from([0, 0, 0, 1, -1]), seed=seeds, as_array=st.booleans(),
     )
 
+def _kept_create():
+    # Vector.from_data(L) where L is a list object the harness keeps, mutates and reuses
+    return _fd(
+        "kept_create", dst=slots, rows=st.lists(nrows, min_size=1, max_size=4), seed=seeds, nf=st.integers(1, 3),
+        form=st.sampled_from(["arrays", "arrays", "lists", "mixed"]), dt=DT, same=st.booleans(), how=st.sampled_from(["slice", "clear+extend"]),
+    )
+
+
 STEP = st.one_of(
-    _fd("set_cell", slot=slots, idx=idx3, rows=nrows, seed=seeds, via=st.sampled_from(["setitem", "set_data"]), bad=BAD),
-    _fd("set_cell", slot=slots, idx=idx3, rows=nrows, seed=seeds, via=st.sampled_from(["setitem", "set_data"]), bad=BAD),
+    _fd("set_cell", slot=slots, idx=idx3, rows=nrows, seed=seeds, via=st.sampled_from(["setitem", "set_data"]), bad=BAD, dt=DT),
+    _fd("set_cell", slot=slots, idx=idx3, rows=nrows, seed=seeds, via=st.sampled_from(["setitem", "set_data"]), bad=BAD, dt=DT),
     _fd("get_cell", slot=slots, idx=idx3, via=st.sampled_from(["getitem", "get_data"])),
     _fd(
         "set_many", slot=slots, exprs=EXPRS3, multi=small, seed=seeds, via=st.sampled_from(["setitem", "set_data"]),
-        bad=BAD, bad_pos=small,
+        bad=BAD, bad_pos=small, dt=DT,
     ),
     _fd(
         "set_many", slot=slots, exprs=EXPRS3, multi=small, seed=seeds, via=st.sampled_from(["setitem", "set_data"]),
-        bad=BAD, bad_pos=small,
+        bad=BAD, bad_pos=small, dt=DT,
     ),
     _fd("get_many", slot=slots, exprs=EXPRS3, via=st.sampled_from(["slice", "slice", "get_data"]), drop=st.integers(0, 2), bare=st.booleans()),
     _fd("get_many", slot=slots, exprs=EXPRS3, via=st.sampled_from(["slice", "slice", "get_data"]), drop=st.integers(0, 2), bare=st.booleans()),
     _fd(
         "set_many", slot=slots, exprs=EXPRS3, multi=small, seed=seeds, via=st.sampled_from(["setitem", "set_data"]),
-        bad=BAD, bad_pos=small,
+        bad=BAD, bad_pos=small, dt=DT,
     ),
     _fd("get_many", slot=slots, exprs=EXPRS3, via=st.sampled_from(["slice", "slice", "get_data"]), drop=st.integers(0, 2), bare=st.booleans()),
+    _kept_create(), _kept_create(),
+    _fd("kept_mutate", kind=st.sampled_from(["replace", "replace", "append", "clear", "pop", "insert"]), i=small, rows=nrows, seed=seeds),
+    _fd("kept_mutate", kind=st.sampled_from(["replace", "replace", "append", "clear", "pop", "insert"]), i=small, rows=nrows, seed=seeds),
+    _fd(
+        "data_set", slot=slots, seed=seeds, form=st.sampled_from(["arrays", "lists", "mixed"]), dt=DT, use_kept=st.booleans(),
+        bad=st.sampled_from([None, None, None, "len+1", "len-1", "cols+1"]),
+    ),
     _fd("hold", slot=slots, exprs=EXPRS3, multi=small, reg=st.integers(0, 1)),
     _av(), _av(), _av(),  # (separate instances: one_of drops repeated identical strategy objects)
     _fd("field_op", slot=slots, f=small, operator=st.sampled_from(["+", "-", "*", "/"]), scalar=st.integers(0, len(SCALARS) - 1)),
@@ -174,7 +222,11 @@ STEP = st.one_of(
 def histories(draw, max_steps):
     # explicit length: st.lists alone is biased towards very short lists (a third had one step)
     n = draw(st.integers(1, max_steps))
-    return {"kind": "history", "init": draw(create_spec()), "steps": draw(st.lists(STEP, min_size=n, max_size=n))}
+    init = draw(create_spec())
+    # history-level switch: cells of other dtypes than float64 (int64 / int32 / float32) only in a third of the
+    # histories, so that the others keep their field arithmetic
+    init["mixed_dtypes"] = draw(st.sampled_from([False, False, True]))
+    return {"kind": "history", "init": init, "steps": draw(st.lists(STEP, min_size=n, max_size=n))}
 
 
 # ------------------------------------------------------------------------------------------------
@@ -299,6 +351,8 @@ class History:
         self.case = case
         self.live = []  # [Vector, VectorModel]
         self.dropped = []
+        self.mixed_dtypes = bool(case.get("init", {}).get("mixed_dtypes", False))
+        self.kept = None  # {"L": the harness-owned list handed to from_data / .data, "rows", "dts", "lists", "k"}
         self.held = [None, None]  # (owner Vector, index sets, sliced Vector) kept by `hold` steps
         self.nstep = 0
         self.classes = []
@@ -384,18 +438,23 @@ class History:
             v = self.must("Vector.from_shape(%r, %r)" % (shape, kw), lambda: Vector.from_shape(shape, **kw))
             m = VectorModel(shape, mfields, munits)
         else:
-            cells = [rows_for(spec["seed"] + t, r, nf) for t, r in enumerate(spec["rows"])]
-            data = []
-            for t, rows in enumerate(cells):
-                as_list = spec["form"] == "lists" or (spec["form"] == "mixed" and t % 2 == 1)
-                # a zero-row cell has no nested-list spelling that carries the column count
-                data.append(copy.deepcopy(rows) if (as_list and rows) else as_array(rows, nf))
+            dts = [dtype_for(spec.get("dt", 0), t, self.mixed_dtypes) for t in range(len(spec["rows"]))]
+            cells = [rows_dt(spec["seed"] + t, r, nf, dts[t]) for t, r in enumerate(spec["rows"])]
+            lists = [spec["form"] == "lists" or (spec["form"] == "mixed" and t % 2 == 1) for t in range(len(cells))]
+            # (a zero-row cell has no nested-list spelling that carries the column count)
+            data = [make_elem(rows, nf, dts[t], lists[t]) for t, rows in enumerate(cells)]
+            if spec.get("keep"):
+                self.kept = {"L": data, "rows": copy.deepcopy(cells), "dts": list(dts), "lists": list(lists), "k": nf}
+                self.classes.append("kept-list:created")
             if spec["names"] == "default" and spec["name_off"] % 2:
                 kw.pop("num_fields")  # inferred from the data
             v = self.must("Vector.from_data(<%d cells, rows %r, %s>, %r)" % (len(cells), spec["rows"], spec["form"], kw), lambda: Vector.from_data(data, **kw))
             m = VectorModel((len(cells),), mfields, munits)
             for t, rows in enumerate(cells):
                 m.set_cell((t,), rows)
+            if any(d != "float64" for d in dts):
+                m.mixed = True
+                self.classes.append("create:from_data:dtypes:" + "+".join(dts[:3]))
         self.classes.append("create:%s:%dd" % (spec["how"], m.ndim))
         if not isinstance(v, Vector):
             self.viol("creation returned %r" % (type(v),))
@@ -419,9 +478,10 @@ class History:
     def op_set_cell(self, step):
         s, v, m = self.pick(step)
         idx = self._idx(step, m)
-        rows = rows_for(step["seed"], step["rows"], m.k)
+        dt = dtype_for(step.get("dt", 0), 0, self.mixed_dtypes)
+        rows = rows_dt(step["seed"], step["rows"], m.k, dt)
         bad = step["bad"]
-        arr = bad_array(bad, step["seed"], step["rows"], m.k) if bad else as_array(rows, m.k)
+        arr = bad_array(bad, step["seed"], step["rows"], m.k) if bad else as_array(rows, m.k, dt)
         key = idx[0] if m.ndim == 1 else tuple(idx)
         if step["via"] == "setitem":
             what = "v#%d[%r] = array%r" % (s, key, arr.shape)
@@ -436,6 +496,9 @@ class History:
             self.classes.append("rejected:" + bad)
             return
         m.set_cell(idx, rows)
+        if dt != "float64":
+            m.mixed = True
+            self.classes.append("cell-dtype:" + dt)
         self.flags["assign"] = True
 
     def op_get_cell(self, step):
@@ -490,10 +553,14 @@ class History:
             # whether a 1-cell slice takes a list or an array is not fixed by the docstring -> not claimed
             via = "setitem"
             self.classes.append("set_data-one-cell-slice->setitem")
-        rows_list = [rows_for(step["seed"] + t, (step["seed"] + t) % 4, m.k) for t in range(len(cells))]
-        arrs = [as_array(r, m.k) for r in rows_list]
+        dts = [dtype_for(step.get("dt", 0), t, self.mixed_dtypes) for t in range(len(cells))]
+        rows_list = [rows_dt(step["seed"] + t, (step["seed"] + t) % 4, m.k, dts[t]) for t in range(len(cells))]
+        arrs = [as_array(r, m.k, dts[t]) for t, r in enumerate(rows_list)]
         bad = step["bad"]
         bp = step["bad_pos"] % len(cells)
+        if any(d != "float64" for d in dts):
+            m.mixed = True  # (also when the assignment is rejected half-way: conservative)
+            self.classes.append("cell-dtype:list")
         if bad:
             arrs[bp] = bad_array(bad, step["seed"], 1, m.k)
         desc = ", ".join(_fmt_expr(e) for e in mes)
@@ -561,6 +628,108 @@ class History:
             self.viol("%s (source shape %r) returned a Vector with %s" % (what, m.shape, p))
         self.flags["slice"] = True
         self.classes.append("slice:%dd:%s" % (m.ndim, "partial" if len(mes) < m.ndim else "full"))
+
+    # -- a data list the harness keeps: from_data(L) / v.data = L must not keep L itself -------------------
+    def _fill_kept(self, L, cells, dts, lists, k, how, reuse=None):
+        """rewrite list object L in place with elements for `cells`.  ndarray elements are always FRESH objects
+        (a Vector stores the arrays it is given by reference - the documented aliasing - so an array object is
+        never handed to two vectors); nested-list elements listed in `reuse` are kept as the same objects"""
+        elems = []
+        for t, rows in enumerate(cells):
+            old = reuse[t] if reuse is not None and t < len(reuse) else None
+            elems.append(old if isinstance(old, list) else make_elem(rows, k, dts[t], lists[t]))
+        if how == "slice":
+            L[:] = elems
+        else:
+            L.clear()
+            L.extend(elems)
+        self.kept = {"L": L, "rows": copy.deepcopy(cells), "dts": list(dts), "lists": list(lists), "k": k}
+
+    def op_kept_create(self, step):
+        """v = Vector.from_data(L) with L the kept list object: the first time a new list, afterwards the SAME
+        list object refilled (same content with fresh array objects, or new content)"""
+        kept = self.kept
+        if kept is not None and step["same"] and kept["rows"]:
+            cells, dts, lists, k = copy.deepcopy(kept["rows"]), kept["dts"], kept["lists"], kept["k"]
+            self._fill_kept(kept["L"], cells, dts, lists, k, step["how"], reuse=list(kept["L"]))
+            self.classes.append("kept-list:second-vector-same-content")
+        else:
+            k = step["nf"]
+            dts = [dtype_for(step["dt"], t, self.mixed_dtypes) for t in range(len(step["rows"]))]
+            cells = [rows_dt(step["seed"] + t, r, k, dts[t]) for t, r in enumerate(step["rows"])]
+            lists = [step["form"] == "lists" or (step["form"] == "mixed" and t % 2 == 1) for t in range(len(cells))]
+            self.classes.append("kept-list:refilled-new-content" if kept is not None else "kept-list:created")
+            self._fill_kept(kept["L"] if kept is not None else [], cells, dts, lists, k, step["how"])
+        L = self.kept["L"]
+        v = self.must("Vector.from_data(<kept list: %d cells, %d columns, dtypes %r>)" % (len(cells), k, dts), lambda: _V().from_data(L))
+        m = VectorModel((len(cells),), ["field_%d" % i for i in range(k)], ["none"] * k)
+        for t, rows in enumerate(cells):
+            m.set_cell((t,), rows)
+        if any(d != "float64" for d in dts):
+            m.mixed = True
+            self.classes.append("create:from_data:dtypes:" + "+".join(dts[:3]))
+        self.flags["non2d"] = True
+        self.place(step["dst"], [v, m])
+
+    def op_kept_mutate(self, step):
+        """the caller goes on using its own list after handing it to from_data / .data: no live Vector may change
+        (check_all right after this step compares every live vector with its untouched model)"""
+        kept = self.kept
+        if kept is None:
+            return False
+        L, k, kind = kept["L"], kept["k"], step["kind"]
+        if kind in ("replace", "pop") and not L:
+            kind = "append"
+        rows = rows_for(step["seed"] + 11, max(step["rows"], 1), k)
+        if kind == "replace":
+            i = step["i"] % len(L)
+            L[i] = as_array(rows, k)
+            kept["rows"][i], kept["dts"][i], kept["lists"][i] = rows, "float64", False
+        elif kind == "pop":
+            i = step["i"] % len(L)
+            L.pop(i)
+            for key in ("rows", "dts", "lists"):
+                kept[key].pop(i)
+        elif kind == "clear":
+            L.clear()
+            kept["rows"], kept["dts"], kept["lists"] = [], [], []
+        else:
+            i = len(L) if kind == "append" else step["i"] % (len(L) + 1)
+            L.insert(i, as_array(rows, k))
+            kept["rows"].insert(i, rows)
+            kept["dts"].insert(i, "float64")
+            kept["lists"].insert(i, False)
+        self.classes.append("kept-list:mutated:" + kind)
+
+    def op_data_set(self, step):
+        """v.data = <list> (public setter; one element per cell, defined for one fixed dimension)"""
+        s, v, m = self.pick(step)
+        if m.ndim != 1:
+            return False
+        bad = step["bad"]
+        n = m.shape[0] + (1 if bad == "len+1" else -1 if bad == "len-1" else 0)
+        k = m.k + (1 if bad == "cols+1" else 0)
+        dts = [dtype_for(step["dt"], t, self.mixed_dtypes) for t in range(n)]
+        cells = [rows_dt(step["seed"] + t, (step["seed"] + t) % 4, k, dts[t]) for t in range(n)]
+        lists = [step["form"] == "lists" or (step["form"] == "mixed" and t % 2 == 1) for t in range(n)]
+        if step["use_kept"] and self.kept is not None:
+            self._fill_kept(self.kept["L"], cells, dts, lists, k, "slice")
+            target = self.kept["L"]
+            self.classes.append("kept-list:data-setter")
+        else:
+            target = [make_elem(rows, k, dts[t], lists[t]) for t, rows in enumerate(cells)]
+        what = "v#%d.data = <list of %d cells with %d columns> (shape %r, %d fields)" % (s, n, k, m.shape, m.k)
+        ok, _ = self.call(what, lambda: setattr(v, "data", target), ValueError if bad else None)
+        if bad:
+            if ok:
+                self.viol("%s accepted: %s" % (what, bad))
+            self.classes.append("rejected:data-setter:" + bad)
+            return
+        for t, rows in enumerate(cells):
+            m.set_cell((t,), rows)
+        if any(d != "float64" for d in dts):
+            m.mixed = True
+        self.flags["assign"] = True
 
     def _take_slice(self, step, s, v, m):
         """held = v[expr] with every addressed cell populated first (a Vector right-hand side needs populated
@@ -632,6 +801,7 @@ class History:
         what = "v#%d[%s] = v#%d[%s].copy()" % (s, desc, s2, desc)
         rhs_vec = self.must("v#%d[%s].copy()" % (s2, desc), lambda: w[key].copy())
         self.flags["slice"] = True
+        m.mixed = m.mixed or wm.mixed
         self._assign_rhs(s, v, m, mes, key, rhs_vec, "match" if wm.k == m.k else "mismatch", wm.get_many(mes), what, "slice")
 
     def _assign_fresh(self, step):
@@ -713,6 +883,10 @@ class History:
 
     def op_field_op(self, step):
         s, v, m = self.pick(step)
+        if m.mixed:
+            # in-place arithmetic casts back to each cell's own dtype (integer cells truncate, float32 cells
+            # round): not modelled, kept away from vectors that ever received a non-float64 cell
+            return False
         f = m.fields[step["f"] % m.k]
         o = step["operator"]
         c = SCALARS[step["scalar"]]
@@ -738,6 +912,8 @@ class History:
             self.ctx.exclude(KEY_CALLABLE)
             return False
         s, v, m = self.pick(step)
+        if m.mixed:
+            return False  # (see op_field_op)
         f = m.fields[step["f"] % m.k]
         sut_fn, model_fn = FUNCS[step["fn"]]
         what = "v#%d[%r] = <function %s> (callable assignment, class docstring 'Apply a function to a field')" % (s, f, step["fn"])
@@ -753,7 +929,8 @@ class History:
         n = len(m.field_flat(f))
         nbad = max(0, n + step["bad_len"])
         bad = nbad != n
-        values = [val(step["seed"], t, 1) for t in range(nbad)]
+        # integer-valued for vectors with non-float64 cells (exact in every cell dtype used)
+        values = [val(step["seed"], t, 1) * (2 if m.mixed else 1) for t in range(nbad)]
         via = step["via"]
         arg = list(values) if via == "list" else np.array(values, dtype=np.float64)
         if via == "setitem_str":
